@@ -94,6 +94,45 @@ def run(rep, programs):
     rep.check(dep, rule, "main|put-frame-depends-on-pfn", "freed frame is computed from the event's pfn: " + T.show(fr)[:120],
               "llfree.put is given %s: the covering record is selected by the aligned pfn, but the frame does not depend on the "
               "event's pfn itself, so a free of a middle or last part releases the first part instead" % T.show(fr)[:160], pt["span"])
+    # exact offset: frame of the covering record + (event pfn - pfn of the covering record)
+    lin = T.linear(fr[2][0]) if fr[0] == "agg" and fr[2] else None
+    exact = False
+    ldesc = "not linear"
+    if lin is not None:
+        atoms, const = lin
+        plus = [a for a, v in atoms.items() if v == 1]
+        minus = [a for a, v in atoms.items() if v == -1]
+        rec_frame = [a for a in plus if any(isinstance(x, tuple) and x and x[0] == "call" and x[1] == "replay::Allocation::frame" for x in T.walk(("x", a)))]
+        ev_pfn = [a for a in plus if a not in rec_frame and any(isinstance(x, tuple) and x and x[0] == "f" and x[-1] == "pfn" for x in T.walk(("x", a)))]
+        # the index the covering record was read from
+        rec_idx = set()
+        for a in rec_frame:
+            for x in T.walk(("x", a)):
+                if isinstance(x, tuple) and x and x[0] == "call" and x[1].endswith(("::index", "::index_mut")) and len(x[2]) == 2:
+                    rec_idx.add(x[2][1])
+        exact = (const == 0 and len(atoms) == 3 and len(rec_frame) == 1 and len(ev_pfn) == 1 and len(minus) == 1 and minus[0] in rec_idx)
+        ldesc = "%d atoms (+%d/-%d), constant %d" % (len(atoms), len(plus), len(minus), const)
+    rep.check(exact, rule, "main|put-frame-offset", "freed frame = record.frame + (pfn - pfn of the covering record)",
+              "the freed frame is not record.frame + (event pfn - record pfn) [%s]: a partial free releases frames outside the "
+              "traced block" % ldesc, pt["span"])
+    # the event loop replays every event
+    from props.c10 import loop_info, iter_loop_header, exits_only_by_exhaustion
+    ev_loop = None
+    for h, blocks, exits in loop_info(b):
+        info = iter_loop_header(b, tm, h)
+        if info and pb in blocks and any(x[0] == "f" and x[3] == "events" for x in T.walk(info[0][2][0])):
+            ev_loop = (h, blocks, exits, info)
+    if ev_loop is None:
+        rep.violation(rule, "main|event-loop", "no loop over the trace's events around the free", b.span)
+    else:
+        h, blocks, exits, info = ev_loop
+        ok, why = exits_only_by_exhaustion(b, tm, h, blocks, exits)
+        rep.check(ok, rule, "main|event-loop|exhaustive", "every event of the trace is replayed",
+                  "replay stops before the end of the trace: %s; the final free count then misses the remaining events" % why, b.term(h)["span"])
+        narrowed = [x[1].rsplit("::", 1)[-1] for x in T.walk(info[0][2][0]) if x[0] == "call" and x[1].rsplit("::", 1)[-1] in
+                    ("take", "skip", "filter", "step_by", "take_while", "skip_while", "rev")]
+        rep.check(not narrowed, rule, "main|event-loop|whole-trace", "iterates all events in order",
+                  "the event iterator is adapted by %s" % narrowed, b.term(h)["span"])
     # flags = request(entry.order, ..) of the same event
     fl = tm.operand(pt["args"][2])
     rep.check(mentions_event_field(fl, "order"), rule, "main|put-order",
@@ -130,6 +169,30 @@ def run(rep, programs):
         rep.check(okoff, rule2, "main|part-offsets", "part_pfn - a_pfn == part_frame - frame",
                   "the remaining parts are recorded with frames that do not advance like their pfns (%s): a later free of such a part "
                   "frees the wrong frame" % detail, wf[0][1]["span"])
+        # number of parts = 2^(record order - event order)
+        from props.c10 import loop_info as _li, iter_loop_header as _ih
+        cnt_ok, cdesc2 = False, "no part loop"
+        for h, blocks, exits in _li(b):
+            info = _ih(b, tm, h)
+            if not info or wf[0][0] not in blocks:
+                continue
+            rng = [x for x in T.walk(info[0][2][0]) if x[0] == "agg" and x[1].startswith("adt:core::ops::range::Range::Range") and len(x[2]) == 2]
+            if not rng:
+                continue
+            lo, hi = rng[0][2]
+            lh = T.linear(hi)
+            if T.const_val(lo) == 0 and lh is not None and lh[1] == 0 and len(lh[0]) == 1 and list(lh[0].keys())[0][0] == "pow2":
+                ex = list(lh[0].keys())[0][1]
+                le = T.linear(ex) if not (isinstance(ex, tuple) and ex and ex[0] == "bin") else T.linear(ex)
+                cdesc2 = T.show(hi)[:100]
+                if le is not None and le[1] == 0 and len(le[0]) == 2:
+                    pos = [a for a, v in le[0].items() if v == 1]
+                    neg = [a for a, v in le[0].items() if v == -1]
+                    cnt_ok = (len(pos) == 1 and len(neg) == 1
+                              and any(isinstance(x, tuple) and x and x[0] == "call" and x[1] == "replay::Allocation::order" for x in T.walk(("x", pos[0])))
+                              and any(isinstance(x, tuple) and x and x[0] == "f" and x[-1] == "order" for x in T.walk(("x", neg[0]))))
+        rep.check(cnt_ok, rule2, "main|part-count", "the record is split into 2^(record order - event order) parts",
+                  "the split does not cover exactly the covering block: part range ends at %s" % cdesc2, wf[0][1]["span"])
         od = tm.operand(wo[0][1]["args"][1])
         rep.check(mentions_event_field(od, "order"), rule2, "main|part-order",
                   "parts are recorded with the event's order", "parts are recorded with order " + T.show(od)[:100], wo[0][1]["span"])
@@ -142,6 +205,18 @@ def run(rep, programs):
         rep.check(good, rule2, "main|alloc-record", "records (frame returned by get, event order)", "alloc record is (%s, %s)" % (T.show(a[0])[:80], T.show(a[1])[:80]), wa[0][1]["span"])
     else:
         rep.violation(rule2, "main|alloc-branch", "expected one get and one Allocation::with", b.span)
+    # the record created for an allocation is present and carries the given frame and order
+    aw = prog.body("replay::Allocation::with")
+    if aw is not None:
+        atm = T.Terms(aw, prog)
+        vals = {}
+        for bi, t in aw.calls():
+            cn = callee_name(t["callee"]) or ""
+            if cn.startswith("replay::Allocation::with_"):
+                vals[cn.rsplit("::", 1)[-1]] = T.canon(atm.operand(t["args"][1]))
+        good = vals.get("with_present") == ("c", 1) and vals.get("with_frame") == ("p", "frame") and vals.get("with_order") == ("p", "order")
+        rep.check(good, rule2, "Allocation::with", "an allocation record is present and stores (frame, order)",
+                  "Allocation::with builds %s: the record of a traced allocation is not found again by its free" % (vals,), aw.span)
     # ---- lookup of the covering record: a loop `for o in entry.order..=TREE_ORDER` in main, or a closure handed to
     #      find_map/find over that range
     TREE_ORDER = prog.crate("llfree").const("llfree::TREE_ORDER")
